@@ -227,6 +227,53 @@ def batchRun {β σ φ : Type} (read : Nat → β → List σ) (score : σ → L
     let spectra := (chunk.zipIdx).flatMap (fun (f, i) => read (c * bs + i) f)
     ({ features := spectra.flatMap score } : Results φ Unit Unit)))
 
+/-! ## 5. `RawSpectrumAccumulator` (runner.rs): the MS1 / MSn split of the scans read in parallel
+
+`read_processed_spectra` collects the scans of a chunk of files with
+`chunk.par_iter().enumerate().flat_map(read).flatten().collect::<RawSpectrumAccumulator>()`, i.e.
+`fold(default, fold_op).reduce(default, reduce)`: rayon splits the scan sequence at positions of its
+choosing, folds every piece sequentially with `fold_op` starting from `default`, and joins the pieces
+pairwise, left before right, with `reduce`. -/
+
+structure Acc (σ : Type) where
+  ms1 : List σ := []
+  msn : List σ := []
+deriving Repr, DecidableEq
+
+/-- `fold_op`: `if rhs.ms_level == 1 { self.ms1.push(rhs) } else { self.msn.push(rhs) }` -/
+def Acc.foldOp {σ : Type} (isMs1 : σ → Bool) (a : Acc σ) (x : σ) : Acc σ :=
+  if isMs1 x then { a with ms1 := a.ms1 ++ [x] } else { a with msn := a.msn ++ [x] }
+
+/-- `reduce`: `self.ms1.extend(other.ms1); self.msn.extend(other.msn); self` -/
+def Acc.reduce {σ : Type} (a b : Acc σ) : Acc σ := { ms1 := a.ms1 ++ b.ms1, msn := a.msn ++ b.msn }
+
+/-- the seeded variant (round 4, C11-H): `if self.msn.is_empty() { return other; }` in front of `reduce`
+    — an "empty accumulator" shortcut that looks only at `msn` -/
+def Acc.reduceShortcut {σ : Type} (a b : Acc σ) : Acc σ := if a.msn.isEmpty then b else a.reduce b
+
+/-- `FromParallelIterator`: every leaf of the split is folded from `default`, nodes are joined with `red` -/
+def parAccumulateWith {σ : Type} (red : Acc σ → Acc σ → Acc σ) (isMs1 : σ → Bool) : Split σ → Acc σ
+  | .leaf xs => xs.foldl (Acc.foldOp isMs1) {}
+  | .node l r => red (parAccumulateWith red isMs1 l) (parAccumulateWith red isMs1 r)
+
+/-- the code as it is -/
+def parAccumulate {σ : Type} (isMs1 : σ → Bool) (t : Split σ) : Acc σ := parAccumulateWith Acc.reduce isMs1 t
+
+/-- `FromIterator` (the serial-read branch) = the sequential reference -/
+def seqAccumulate {σ : Type} (isMs1 : σ → Bool) (xs : List σ) : Acc σ := xs.foldl (Acc.foldOp isMs1) {}
+
+/-- `if ms1_empty { MS1Spectra::Empty } else { MS1Spectra::NoMobility(…) }` (no scan has ion mobility) -/
+def ms1Of {μ : Type} (l : List μ) : MS1 μ := if l.isEmpty then .empty else .noMobility l
+
+/-- `batch_files` with the MS1 side kept: per chunk, the scans of its files (each read under its `file_id`)
+    are accumulated over SOME split `splitOf` of the scan sequence; the MSn scans are searched, the MS1
+    scans are carried in the result; the chunks are folded with the `SageResults` reduction. -/
+def batchRunMs1 {β σ φ : Type} (read : Nat → β → List σ) (isMs1 : σ → Bool) (score : σ → List φ)
+    (splitOf : List σ → Split σ) (bs : Nat) (files : List β) : Option (Results φ Unit σ) :=
+  reduceSeq (((chunks bs files.length files).zipIdx).map (fun (chunk, c) =>
+    let acc := parAccumulate isMs1 (splitOf ((chunk.zipIdx).flatMap (fun (f, i) => read (c * bs + i) f)))
+    ({ features := acc.msn.flatMap score, ms1 := ms1Of acc.ms1 } : Results φ Unit σ)))
+
 /-! ## executable spec clauses (evaluated by the driver on the implementation's replies) -/
 
 /-- pairwise distinct, the naive O(n²) way -/
